@@ -50,6 +50,21 @@ def gen_crowded_history(r, hid, max_lifetimes=2):
         lts.append(ops)
     return f"{hid} {','.join(ts + FAKES)} " + "|".join(",".join(o) for o in lts), lts
 
+def gen_dense_history(r, hid, max_lifetimes=2):
+    """LONG lifetimes on FEW functions: 40-72 installations over 3-6 targets in one injector, in no particular address order (every function is faked
+    again and again), so that whatever the injector does with its list of guards at scope exit (orders, groups, de-duplicates) is exercised on
+    long lists with many entries for one function; a call now and then"""
+    ts = r.sample(U64, r.randint(3, 5)) + r.sample(BOOLS, r.randint(0, 1))
+    lts = []
+    for _ in range(r.randint(1, max_lifetimes)):
+        ops = []
+        for _ in range(r.randint(40, 72)):
+            t = r.choice(ts)
+            ops.append(f"I:{t}:bool:{r.randint(0, 1)}" if t in BOOLS else f"I:{t}:{r.choice(['raw', 'clo', 'fake', 'unc'])}:{r.randint(0, 3)}")
+            if r.random() < 0.06: ops.append(f"C:{r.choice(ts)}")
+        lts.append(ops)
+    return f"{hid} {','.join(ts + FAKES)} " + "|".join(",".join(o) for o in lts), lts
+
 def gen_counted_history(r, hid, max_lifetimes=3):
     """histories mixing plain and counted fakes (met and unmet budgets) on targets drawn WITH repetition;
     values are only sampled at scope exit (a boundary call would consume a budget)"""
